@@ -16,7 +16,7 @@ from vlib.core import bad, ok
 
 LEVEL = 'exploration'
 RULE = ('seq: Hypothesis lists of up to 120 ops [malloc n | free k | '
-        'free-while-heap-lock-held k | flush] on a fresh Heap(4096|8192); a case '
+        'free-while-heap-lock-held k | malloc-with-a-free-arriving-inside-it n k] on a fresh Heap(4096|8192); a case '
         'is non-trivial when a malloc reused freed space, or a free coalesced '
         'with both neighbours, or a deferred free happened. threads: 2-4 real '
         'threads each running a generated script; non-trivial when >=2 threads '
@@ -42,6 +42,10 @@ _OP = st.one_of(
     st.tuples(st.just('m'), _SIZES),
     st.tuples(st.just('f'), st.integers(0, 1000)),
     st.tuples(st.just('fl'), st.integers(0, 1000)),
+    # malloc during which - at the moment the heap first puts a block on its free
+    # lists, lock held - another live block is released (a finalizer run by the
+    # garbage collector in the middle of malloc)
+    st.tuples(st.just('mfd'), _SIZES, st.integers(0, 1000)),
 )
 
 
@@ -145,6 +149,22 @@ def execute_seq(case):
     try:
         for op in case['ops']:
             kind, arg = op[0], op[1]
+            injected = None
+            if kind == 'mfd':
+                kind = 'm'
+                if model.live:
+                    vkey = sorted(model.live)[op[2] % len(model.live)]
+                    victim = model.live[vkey]
+                    fired = []
+                    real_free = heap._free
+
+                    def hooked(block, _v=victim, _f=fired, _rf=real_free):
+                        if not _f:
+                            _f.append(1)
+                            heap.free(_v[:3])      # finds the lock taken
+                        return _rf(block)
+                    heap._free = hooked
+                    injected = (vkey, victim, fired)
             if kind == 'm':
                 need = _roundup(max(arg, 1))
                 # pending blocks are reclaimed by malloc before it searches
@@ -153,7 +173,30 @@ def execute_seq(case):
                 gaps = model.gaps(heap._arenas)
                 fits = bool(gaps) and need <= max(gaps)
                 n_arenas = len(heap._arenas)
-                arena, start, stop = heap.malloc(arg)
+                try:
+                    arena, start, stop = heap.malloc(arg)
+                finally:
+                    if injected is not None:
+                        del heap._free
+                if injected is not None and injected[2]:
+                    vkey, victim, _ = injected
+                    labels.add('free_during_malloc')
+                    if not _pattern_ok(victim):
+                        return bad('C14/overwritten', 'block freed during malloc')
+                    del model.live[vkey]
+                    freed_extents.append(victim[:3])
+                    b3 = victim[:3]
+                    in_pending = any(x == b3 for x in heap._pending_free_blocks)
+                    in_alloc = b3 in heap._allocated_blocks
+                    if in_pending:
+                        saved_pending = dict(saved_pending)
+                        model.pending[vkey] = b3
+                    elif in_alloc and b3 != (arena, start, stop):
+                        # (equal to the new block = freed in time and handed out
+                        # again by this very malloc)
+                        return bad('C14/free-lost', 'a block released while malloc '
+                                   'held the lock is neither pending nor free '
+                                   'afterwards')
                 if stop - start < arg or stop <= start:
                     return bad('C14/too-small', 'malloc(%d) -> [%d,%d)' % (
                         arg, start, stop))
@@ -227,7 +270,8 @@ def execute_seq(case):
                 a.buffer.close()
             except (BufferError, ValueError):
                 pass
-    nontrivial = bool(labels & {'reuse', 'coalesce_both', 'deferred'})
+    nontrivial = bool(labels & {'reuse', 'coalesce_both', 'deferred',
+                                'free_during_malloc'})
     return ok(nontrivial, sorted(labels))
 
 
